@@ -260,7 +260,7 @@ pub fn replay<M: Model>(m: &M, case: &Value) -> Option<Vec<Violation>> {
 /// Which property a model's structural violations (same content, different objects) belong to.
 fn prop_of(model: &str) -> &'static str {
     match model {
-        "quals-bfs" | "quals-typed-bfs" => "C11",
+        "quals-bfs" | "quals-typed-bfs" | "quals-typed-others-bfs" => "C11",
         "builder-bfs" | "builder-typed-bfs" => "C09",
         "checksum-bfs" => "C12",
         _ => "C06",
